@@ -31,13 +31,13 @@ def floor(tier):
 
 def cases(tier, rng):
     out = []
-    n = 48 if tier == "quick" else 240
+    n = 48 if tier == "quick" else 600
     combos = [("F2", "NC"), ("FL", "NC"), ("F2", "EM"), ("F2", "CC"), ("FL", "CC"), ("F3", "CC"), ("g1", "NC"), ("FL", "EM")]
     for i in range(n):
         kind, proc = combos[i % len(combos)]
         flavour = "charm" if i % 3 else "bottom"
         pto = (1 if proc == "CC" else 2) if kind != "g1" else 2
-        if tier == "quick" and i % 2 and proc != "CC":
+        if tier == "quick" and (i // len(combos)) % 3 == 2 and proc != "CC":
             pto = 1
         heavy = flavour if (i // len(combos)) % 2 == 0 or proc == "CC" else "light"
         m = float(rng.uniform(1.2, 1.8)) if flavour == "charm" else float(rng.uniform(4.0, 5.0))
